@@ -1,5 +1,539 @@
-use crate::common::Ctx;
-pub fn run(_ctx: &Ctx, _replay: Option<&serde_json::Value>) -> i32 {
-    eprintln!("not implemented");
-    2
+//! C14 — indexing, spreading and the list / string / record built-ins satisfy their laws.
+//!
+//! Subjects (lists, strings, records) are enumerated exhaustively over small alphabets; each law is
+//! a program evaluated by the real evaluator whose result is compared with a reference value the
+//! harness computes on its own value type (`RV`).
+
+use crate::alpha::*;
+use crate::common::*;
+use serde_json::{Value as J, json};
+use std::cmp::Ordering;
+
+/// Source text for any string, including ones with both quote kinds (built by concatenation).
+pub fn str_src(s: &str) -> String {
+    if let Some(q) = quote_str(s) {
+        return q;
+    }
+    let mut parts: Vec<String> = vec![];
+    let mut cur = String::new();
+    for c in s.chars() {
+        let mut probe = cur.clone();
+        probe.push(c);
+        if quote_str(&probe).is_none() {
+            parts.push(quote_str(&cur).unwrap());
+            cur = c.to_string();
+        } else {
+            cur = probe;
+        }
+    }
+    parts.push(quote_str(&cur).unwrap());
+    format!("({})", parts.join(" + "))
+}
+
+fn rv_src(v: &RV) -> String {
+    match v {
+        RV::Str(s) => str_src(s),
+        RV::List(l) => format!("[{}]", l.iter().map(rv_src).collect::<Vec<_>>().join(", ")),
+        RV::Rec(es) => format!(
+            "{{{}}}",
+            es.iter()
+                .map(|(k, v)| format!("{}: {}", if is_ident(k) { k.clone() } else { format!("[{}]", str_src(k)) }, rv_src(v)))
+                .collect::<Vec<_>>()
+                .join(", ")
+        ),
+        other => other.src(),
+    }
+}
+
+fn chars_of(s: &str) -> Vec<RV> {
+    s.chars().map(|c| RV::Str(c.to_string())).collect()
+}
+
+fn num(n: usize) -> RV {
+    RV::Num(n as f64)
+}
+
+struct Law {
+    name: &'static str,
+    program: String,
+    /// None = only require success
+    expected: Option<RV>,
+}
+
+fn mutually_comparable(l: &[RV]) -> bool {
+    for a in l {
+        for b in l {
+            if a.compare(b).is_none() {
+                return false;
+            }
+        }
+    }
+    true
+}
+
+fn multiset(l: &[RV]) -> Vec<String> {
+    let mut v: Vec<String> = l.iter().map(|x| x.canon()).collect();
+    v.sort();
+    v
+}
+
+fn index_ref(l: &[RV], i: i64) -> RV {
+    let n = l.len() as i64;
+    let k = if i < 0 { n + i } else { i };
+    if k < 0 || k >= n { RV::Null } else { l[k as usize].clone() }
+}
+
+fn list_laws(l: &[RV]) -> Vec<Law> {
+    let mut laws = vec![];
+    let n = l.len();
+    let me = RV::List(l.to_vec());
+    let law = |name: &'static str, program: &str, expected: Option<RV>| Law { name, program: program.to_string(), expected };
+    let mut rev = l.to_vec();
+    rev.reverse();
+    laws.push(law("reverse", "reverse(l)", Some(RV::List(rev))));
+    laws.push(law("reverse-involution", "reverse(reverse(l))", Some(me.clone())));
+    laws.push(law("len", "len(l)", Some(num(n))));
+    laws.push(law("head", "head(l)", Some(l.first().cloned().unwrap_or(RV::Null))));
+    laws.push(law("tail", "tail(l)", Some(RV::List(l.iter().skip(1).cloned().collect()))));
+    if n > 0 {
+        laws.push(law("head-tail-rebuild", "[head(l), ...tail(l)]", Some(me.clone())));
+    }
+    laws.push(law("spread-identity", "[...l]", Some(me.clone())));
+    laws.push(law("spread-call", "((...r) => r)(...l)", Some(me.clone())));
+    laws.push(law("concat-self", "concat(l, l)", Some(RV::List(l.iter().chain(l.iter()).cloned().collect()))));
+    let mval = vec![RV::Num(7.0), RV::s("z")];
+    laws.push(law("spread-concat", "[...l, ...m]", Some(RV::List(l.iter().chain(mval.iter()).cloned().collect()))));
+    laws.push(law("concat", "concat(l, m)", Some(RV::List(l.iter().chain(mval.iter()).cloned().collect()))));
+    laws.push(law("concat3", "concat(m, l, m)", Some(RV::List(mval.iter().chain(l.iter()).chain(mval.iter()).cloned().collect()))));
+    // unique: first member of each .== class, in order
+    let mut uniq: Vec<RV> = vec![];
+    for x in l {
+        if !uniq.iter().any(|u| u.equals(x)) {
+            uniq.push(x.clone());
+        }
+    }
+    laws.push(law("unique", "unique(l)", Some(RV::List(uniq))));
+    // chunk / flatten
+    for c in 1..=(n.max(1) + 1).min(6) {
+        let chunks: Vec<RV> = l.chunks(c).map(|ch| RV::List(ch.to_vec())).collect();
+        laws.push(Law { name: "chunk", program: format!("chunk(l, {})", c), expected: Some(RV::List(chunks)) });
+        laws.push(Law { name: "flatten-chunk", program: format!("flatten(chunk(l, {}))", c), expected: Some(me.clone()) });
+    }
+    // flatten flattens exactly one level
+    let mut flat = vec![];
+    for x in l {
+        match x {
+            RV::List(inner) => flat.extend(inner.iter().cloned()),
+            o => flat.push(o.clone()),
+        }
+    }
+    laws.push(law("flatten", "flatten(l)", Some(RV::List(flat))));
+    // slice on every in-range pair
+    for a in 0..=n {
+        for b in a..=n {
+            laws.push(Law { name: "slice", program: format!("slice(l, {}, {})", a, b), expected: Some(RV::List(l[a..b].to_vec())) });
+        }
+    }
+    // zip padding
+    let zipped: Vec<RV> = (0..n.max(2))
+        .map(|i| RV::List(vec![l.get(i).cloned().unwrap_or(RV::Null), mval.get(i).cloned().unwrap_or(RV::Null)]))
+        .collect();
+    laws.push(law("zip", "zip(l, m)", Some(RV::List(zipped))));
+    let zipped3: Vec<RV> = (0..n.max(2))
+        .map(|i| RV::List(vec![mval.get(i).cloned().unwrap_or(RV::Null), l.get(i).cloned().unwrap_or(RV::Null), l.get(i).cloned().unwrap_or(RV::Null)]))
+        .collect();
+    laws.push(law("zip3", "zip(m, l, l)", Some(RV::List(zipped3))));
+    // indexing
+    for i in -(n as i64) - 2..=(n as i64) + 1 {
+        laws.push(Law { name: "index", program: format!("l[{}]", if i < 0 { format!("(-{})", -i) } else { i.to_string() }), expected: Some(index_ref(l, i)) });
+    }
+    // includes
+    laws.push(law("includes", "includes(l, 1)", Some(RV::Bool(l.iter().any(|x| x.equals(&RV::Num(1.0)))))));
+    laws
+}
+
+/// Laws whose expected value needs the observed value (sort family, group_by): program -> checker
+fn check_sort(ctx: &Ctx, sess: &mut Session, l: &[RV], lsrc: &str) {
+    let viol = |kind: &str, prog: &str, exp: String, obs: String| {
+        ctx.violation(Violation {
+            kind: kind.to_string(),
+            class: format!("len{}", if l.len() >= 21 { "21+".to_string() } else { (l.len().min(6)).to_string() }),
+            input: format!("l = {} ; {}", lsrc, prog),
+            expected: exp,
+            observed: obs,
+            case: json!({"subject": lsrc, "program": prog}),
+        });
+    };
+    // sort
+    let out = sess.run("sort(l)");
+    ctx.count(1);
+    match &out {
+        Outcome::Ok(c) => {
+            let got = parse_canon_list(c);
+            match got {
+                None => viol("sort", "sort(l)", "a list".into(), c.clone()),
+                Some(items) => {
+                    let mut a = items.clone();
+                    a.sort();
+                    if a != multiset(l) {
+                        viol("sort-permutation", "sort(l)", format!("a permutation of {:?}", multiset(l)), c.clone());
+                    } else if mutually_comparable(l) {
+                        // expected: stable sort by the reference order
+                        let mut exp = l.to_vec();
+                        exp.sort_by(|x, y| x.compare(y).unwrap());
+                        let e = RV::List(exp).canon();
+                        ctx.outcome("sort-comparable");
+                        if &e != c {
+                            viol("sort-order-stability", "sort(l)", e, c.clone());
+                        }
+                    } else {
+                        ctx.outcome("sort-incomparable");
+                    }
+                }
+            }
+        }
+        other => viol("sort", "sort(l)", "a list".into(), format!("{:?}", other)),
+    }
+    // sort_by with tagged pairs: key = element, tag = position; stability is observable
+    let tagged = "zip(l, range(len(l)))";
+    for (key_fn, key_name) in [("p => p[0]", "elem"), ("keyrec", "recursive-key")] {
+        let prog = format!("sort_by({}, {})", tagged, key_fn);
+        let out = sess.run(&prog);
+        ctx.count(1);
+        match &out {
+            Outcome::Ok(c) => {
+                let mut exp: Vec<(RV, usize)> = l.iter().cloned().zip(0..).collect();
+                let items = parse_canon_list(c);
+                let mut ms: Vec<String> = exp.iter().map(|(v, i)| RV::List(vec![v.clone(), num(*i)]).canon()).collect();
+                ms.sort();
+                let mut got_ms = items.clone().unwrap_or_default();
+                got_ms.sort();
+                if got_ms != ms {
+                    viol("sort_by-permutation", &prog, format!("{:?}", ms), c.clone());
+                } else if mutually_comparable(l) {
+                    exp.sort_by(|x, y| x.0.compare(&y.0).unwrap());
+                    let e = RV::List(exp.into_iter().map(|(v, i)| RV::List(vec![v, num(i)])).collect()).canon();
+                    ctx.outcome(&format!("sort_by-{}-comparable", key_name));
+                    if &e != c {
+                        viol("sort_by-order-stability", &prog, e, c.clone());
+                    }
+                }
+            }
+            other => viol("sort_by", &prog, "a list".into(), format!("{:?}", other)),
+        }
+    }
+    // group_by / count_by with typeof as key: partition, order, counts
+    for (f, fname) in [("typeof", "typeof"), ("x => to_string(x .== 1)", "lambda"), ("grec", "recursive")] {
+        let prog = format!("entries(group_by(l, {}))", f);
+        let out = sess.run(&prog);
+        let cnt = sess.run(&format!("entries(count_by(l, {}))", f));
+        ctx.count(2);
+        let key_of = |x: &RV| -> String {
+            match fname {
+                "typeof" => x.type_name().to_string(),
+                "recursive" => if x.is_list() { "null".to_string() } else { x.type_name().to_string() },
+                _ => x.equals(&RV::Num(1.0)).to_string(),
+            }
+        };
+        let mut groups: Vec<(String, Vec<RV>)> = vec![];
+        for x in l {
+            let k = key_of(x);
+            match groups.iter_mut().find(|(g, _)| *g == k) {
+                Some((_, v)) => v.push(x.clone()),
+                None => groups.push((k, vec![x.clone()])),
+            }
+        }
+        let exp = RV::List(groups.iter().map(|(k, v)| RV::List(vec![RV::Str(k.clone()), RV::List(v.clone())])).collect());
+        let expc = RV::List(groups.iter().map(|(k, v)| RV::List(vec![RV::Str(k.clone()), num(v.len())])).collect());
+        ctx.outcome("group_by-checked");
+        if out != Outcome::Ok(exp.canon()) {
+            viol("group_by", &prog, exp.canon(), out.cmp_key());
+        }
+        if cnt != Outcome::Ok(expc.canon()) {
+            viol("count_by", &format!("entries(count_by(l, {}))", f), expc.canon(), cnt.cmp_key());
+        }
+    }
+}
+
+/// Split a canonical list rendering into its top-level items.
+pub fn parse_canon_list(c: &str) -> Option<Vec<String>> {
+    let inner = c.strip_prefix('[')?.strip_suffix(']')?;
+    let mut items = vec![];
+    let mut depth = 0i32;
+    let mut in_str = false;
+    let mut esc = false;
+    let mut cur = String::new();
+    let chars: Vec<char> = inner.chars().collect();
+    let mut i = 0;
+    while i < chars.len() {
+        let ch = chars[i];
+        if in_str {
+            cur.push(ch);
+            if esc {
+                esc = false;
+            } else if ch == '\\' {
+                esc = true;
+            } else if ch == '"' {
+                in_str = false;
+            }
+        } else {
+            match ch {
+                '"' => {
+                    in_str = true;
+                    cur.push(ch)
+                }
+                '[' | '{' => {
+                    depth += 1;
+                    cur.push(ch)
+                }
+                ']' | '}' => {
+                    depth -= 1;
+                    cur.push(ch)
+                }
+                ',' if depth == 0 => {
+                    items.push(cur.trim().to_string());
+                    cur = String::new();
+                }
+                _ => cur.push(ch),
+            }
+        }
+        i += 1;
+    }
+    if !cur.trim().is_empty() {
+        items.push(cur.trim().to_string());
+    }
+    Some(items)
+}
+
+fn string_laws(s: &str) -> Vec<Law> {
+    let ch = chars_of(s);
+    let n = ch.len();
+    let mut laws = vec![];
+    let law = |name: &'static str, program: &str, expected: Option<RV>| Law { name, program: program.to_string(), expected };
+    let me = RV::Str(s.to_string());
+    laws.push(law("str-spread", "[...s]", Some(RV::List(ch.clone()))));
+    laws.push(law("str-len", "len(s)", Some(num(n))));
+    laws.push(law("str-len-spread", "len(s) == len([...s])", Some(RV::Bool(true))));
+    laws.push(law("str-head", "head(s)", Some(ch.first().cloned().unwrap_or(RV::s("")))));
+    laws.push(law("str-tail", "tail(s)", Some(RV::Str(s.chars().skip(1).collect()))));
+    laws.push(law("str-head-tail-rebuild", "head(s) + tail(s)", Some(me.clone())));
+    if n > 0 {
+        laws.push(law("str-head-index", "head(s) == s[0]", Some(RV::Bool(true))));
+    }
+    for i in -(n as i64) - 1..=(n as i64) + 1 {
+        laws.push(Law { name: "str-index", program: format!("s[{}]", if i < 0 { format!("(-{})", -i) } else { i.to_string() }), expected: Some(index_ref(&ch, i)) });
+    }
+    for a in 0..=n {
+        for b in a..=n {
+            let sub: String = s.chars().skip(a).take(b - a).collect();
+            laws.push(Law { name: "str-slice", program: format!("slice(s, {}, {})", a, b), expected: Some(RV::Str(sub)) });
+        }
+    }
+    laws.push(law("str-join-spread", "join([...s], \"\")", Some(me.clone())));
+    laws.push(law("str-concat-spread", "concat([], [], ...s)", Some(RV::List(ch.clone()))));
+    // join(split(s, d), d) == s for every delimiter
+    for d in ["", ",", "a", " ", "\u{e9}", "ab", "\n", "\u{1f600}"] {
+        laws.push(Law { name: "str-split-join", program: format!("join(split(s, {}), {})", str_src(d), str_src(d)), expected: Some(me.clone()) });
+        if !d.is_empty() {
+            let parts: Vec<RV> = s.split(d).map(RV::s).collect();
+            laws.push(Law { name: "str-split", program: format!("split(s, {})", str_src(d)), expected: Some(RV::List(parts)) });
+        }
+    }
+    laws.push(law("str-includes-self", "includes(s, s)", Some(RV::Bool(true))));
+    laws.push(law("str-record-spread", "{...s}", Some(RV::Rec(ch.iter().enumerate().map(|(i, c)| (i.to_string(), c.clone())).collect()))));
+    laws
+}
+
+fn record_laws(r: &[(String, RV)]) -> Vec<Law> {
+    let mut laws = vec![];
+    let law = |name: &'static str, program: String, expected: Option<RV>| Law { name, program, expected };
+    laws.push(law("rec-keys", "keys(r)".into(), Some(RV::List(r.iter().map(|(k, _)| RV::Str(k.clone())).collect()))));
+    laws.push(law("rec-values", "values(r)".into(), Some(RV::List(r.iter().map(|(_, v)| v.clone()).collect()))));
+    let ents = RV::List(r.iter().map(|(k, v)| RV::List(vec![RV::Str(k.clone()), v.clone()])).collect());
+    laws.push(law("rec-entries", "entries(r)".into(), Some(ents.clone())));
+    laws.push(law("rec-spread", "[...r]".into(), Some(ents)));
+    laws.push(law("rec-values-via-keys", "(keys(r) via (k => r[k])) .== values(r)".into(), Some(RV::Bool(true))));
+    laws.push(law("rec-spread-identity", "{...r} .== r".into(), Some(RV::Bool(true))));
+    for probe in ["a", "b", "zz", "", "a b", "0"] {
+        let v = r.iter().find(|(k, _)| k == probe).map(|(_, v)| v.clone()).unwrap_or(RV::Null);
+        laws.push(law("rec-index", format!("r[{}]", str_src(probe)), Some(v.clone())));
+        if is_ident(probe) {
+            laws.push(law("rec-field", format!("r.{}", probe), Some(v)));
+        }
+    }
+    laws
+}
+
+fn run_laws(ctx: &Ctx, sess: &mut Session, subject_src: &str, laws: Vec<Law>) {
+    for law in laws {
+        let out = sess.run(&law.program);
+        ctx.count(1);
+        ctx.outcome(law.name);
+        let ok = match (&law.expected, &out) {
+            (Some(e), Outcome::Ok(c)) => &e.canon() == c,
+            (None, Outcome::Ok(_)) => true,
+            _ => false,
+        };
+        if !ok {
+            ctx.violation(Violation {
+                kind: law.name.to_string(),
+                class: subject_class(subject_src),
+                input: format!("{} ; {}", subject_src, law.program),
+                expected: law.expected.map(|e| e.canon()).unwrap_or("success".into()),
+                observed: out.cmp_key(),
+                case: json!({"subject": subject_src, "program": law.program}),
+            });
+        }
+    }
+}
+
+fn subject_class(src: &str) -> String {
+    if src.starts_with("s = ") {
+        if src.is_ascii() { "ascii-string".into() } else { "non-ascii-string".into() }
+    } else if src.starts_with("r = ") {
+        "record".into()
+    } else {
+        "list".into()
+    }
+}
+
+const PRELUDE: &str = "m = [7, \"z\"]\nkeyrec = p => if len(p) > 1 then keyrec([p[0]]) else p[0]\ngrec = x => if typeof(x) == \"list\" then grec(null) else typeof(x)\n";
+
+pub fn run(ctx: &Ctx, replay: Option<&J>) -> i32 {
+    if let Some(r) = replay {
+        let mut sess = Session::new();
+        sess.run(PRELUDE);
+        let subj = r["case"]["subject"].as_str().unwrap_or("");
+        let prog = r["case"]["program"].as_str().unwrap_or("");
+        let s = if subj.contains(" = ") { subj.to_string() } else { format!("l = {}", subj) };
+        let o0 = sess.run(&s);
+        let o = sess.run(prog);
+        println!("{} -> {:?}\n{} -> {:?}\nexpected: {}", s, o0.status(), prog, o, r["expected"]);
+        let exp = r["expected"].as_str().unwrap_or("");
+        if o.cmp_key() != format!("ok:{}", exp) {
+            println!("VIOLATION property=C14 replay=<replayed>");
+            return 1;
+        }
+        return 0;
+    }
+    let thorough = !ctx.quick();
+    // ---- lists
+    let alpha = vec![RV::Num(1.0), RV::Num(0.0), RV::s("a"), RV::Num(2.0), RV::Null, RV::Num(f64::NAN)];
+    let mut lists: Vec<Vec<RV>> = words(&alpha, if thorough { 5 } else { 4 });
+    // comparable-but-distinguishable elements for stability: 0 / -0, [0] / [-0]
+    let stab = vec![RV::Num(0.0), RV::Num(-0.0), RV::Num(1.0), RV::List(vec![RV::Num(0.0)]), RV::List(vec![RV::Num(-0.0)])];
+    lists.extend(words(&stab, if thorough { 5 } else { 4 }));
+    let nums = vec![RV::Num(3.0), RV::Num(1.0), RV::Num(2.0), RV::Num(-0.0), RV::Num(0.0)];
+    let strs = vec![RV::s("b"), RV::s("a"), RV::s("\u{e9}"), RV::s("")];
+    lists.extend(words(&strs, 3));
+    let nested = vec![RV::List(vec![]), RV::List(vec![RV::Num(1.0)]), RV::List(vec![RV::Num(1.0), RV::Num(2.0)]), RV::Num(1.0)];
+    lists.extend(words(&nested, 3));
+    // long lists: every word of length 1..k over the mixed and the numeric alphabets, periodically extended
+    let long_lens: &[usize] = if thorough { &[6, 9, 16, 20, 21, 22, 25, 32, 40] } else { &[7, 21, 22, 40] };
+    for w in words(&alpha, if thorough { 4 } else { 3 }).into_iter().chain(words(&nums, 3)).chain(words(&stab, 3)).filter(|w| !w.is_empty()) {
+        for &n in long_lens {
+            lists.push(extend_periodic(&w, n));
+        }
+    }
+    lists.sort_by_key(|l| RV::List(l.clone()).canon());
+    lists.dedup_by_key(|l| RV::List(l.clone()).canon());
+    par_for(lists.len(), |i| {
+        let l = &lists[i];
+        let mut sess = Session::new();
+        sess.run(PRELUDE);
+        let lsrc = rv_src(&RV::List(l.clone()));
+        let o = sess.run(&format!("l = {}", lsrc));
+        if !o.is_ok() {
+            ctx.machinery_error(format!("cannot bind subject {}: {:?}", lsrc, o));
+            return;
+        }
+        ctx.nontrivial(&lsrc);
+        if l.len() <= 8 {
+            run_laws(ctx, &mut sess, &lsrc, list_laws(l));
+        }
+        check_sort(ctx, &mut sess, l, &lsrc);
+    });
+    // ---- strings
+    let mut strings: Vec<String> = sigma_strings(if thorough { 3 } else { 2 });
+    strings.extend(["hello", "a,b,,c", "abcabc", " x ", "\u{e9}a", "a\u{e9}", "na\u{ef}ve caf\u{e9}", "\u{1f600}\u{1f600}a", "e\u{301}e\u{301}"].iter().map(|s| s.to_string()));
+    par_for(strings.len(), |i| {
+        let s = &strings[i];
+        let mut sess = Session::new();
+        let subj = format!("s = {}", str_src(s));
+        let o = sess.run(&subj);
+        if !o.is_ok() {
+            ctx.machinery_error(format!("cannot bind subject {:?}: {:?}", s, o));
+            return;
+        }
+        ctx.nontrivial(&subj);
+        run_laws(ctx, &mut sess, &subj, string_laws(s));
+    });
+    // ---- records
+    let keys = ["a", "b", "a b", ""];
+    let vals = vec![RV::Num(1.0), RV::Null, RV::List(vec![RV::Num(2.0)])];
+    let mut records: Vec<Vec<(String, RV)>> = vec![vec![]];
+    for klen in 1..=3 {
+        for ks in words(&keys, klen).into_iter().filter(|w| w.len() == klen) {
+            let mut distinct = ks.clone();
+            distinct.sort();
+            distinct.dedup();
+            if distinct.len() != ks.len() {
+                continue;
+            }
+            for vs in words(&vals, klen).into_iter().filter(|w| w.len() == klen) {
+                records.push(ks.iter().map(|k| k.to_string()).zip(vs.into_iter()).collect());
+            }
+        }
+    }
+    par_for(records.len(), |i| {
+        let r = &records[i];
+        let mut sess = Session::new();
+        let subj = format!("r = {}", rv_src(&RV::Rec(r.clone())));
+        let o = sess.run(&subj);
+        if !o.is_ok() {
+            ctx.machinery_error(format!("cannot bind subject {}: {:?}", subj, o));
+            return;
+        }
+        ctx.nontrivial(&subj);
+        run_laws(ctx, &mut sess, &subj, record_laws(r));
+    });
+    // ---- range
+    for a in -3i64..=4 {
+        for b in a..=a + 5 {
+            let prog = format!("range({}, {})", if a < 0 { format!("(-{})", -a) } else { a.to_string() }, if b < 0 { format!("(-{})", -b) } else { b.to_string() });
+            let exp = RV::List((a..b).map(|x| RV::Num(x as f64)).collect());
+            let out = eval_fresh(&prog);
+            ctx.count(1);
+            ctx.outcome("range");
+            if out != Outcome::Ok(exp.canon()) {
+                ctx.violation(Violation { kind: "range".into(), class: "range".into(), input: prog.clone(), expected: exp.canon(), observed: out.cmp_key(), case: json!({"subject": "x = 0", "program": prog}) });
+            }
+        }
+    }
+    for n in 0..6 {
+        let prog = format!("range({})", n);
+        let exp = RV::List((0..n).map(|x| RV::Num(x as f64)).collect());
+        let out = eval_fresh(&prog);
+        ctx.count(1);
+        if out != Outcome::Ok(exp.canon()) {
+            ctx.violation(Violation { kind: "range".into(), class: "range".into(), input: prog.clone(), expected: exp.canon(), observed: out.cmp_key(), case: json!({"subject": "x = 0", "program": prog}) });
+        }
+    }
+    ctx.set("lists", json!(lists.len()));
+    ctx.set("strings", json!(strings.len()));
+    ctx.set("records", json!(records.len()));
+    ctx.sample(json!({"subject": "l = [1, \"a\", null]", "laws": ["sort(l)", "unique(l)", "flatten(chunk(l, 2))", "l[(-1)]"]}));
+    ctx.sample(json!({"subject": "s = \"\u{e9}a\"", "laws": ["len(s)", "head(s) + tail(s)", "slice(s, 0, 1)", "join(split(s, \"a\"), \"a\")"]}));
+    ctx.sample(json!({"subject": "r = {a: 1, [\"a b\"]: null}", "laws": ["keys(r)", "entries(r)", "r.a"]}));
+    for t in ["sort-comparable", "sort-incomparable", "sort_by-elem-comparable", "group_by-checked", "str-slice", "rec-index", "flatten-chunk", "index"] {
+        ctx.require_outcome(t, 50);
+    }
+    ctx.assume("non-integer and out-of-range slice arguments are outside the statement (C01 covers crashes)");
+    finish(
+        ctx,
+        "exploration",
+        "every list of length <= 4/5 over a mixed 6-value alphabet, a stability alphabet (0/-0, [0]/[-0]), string and nested alphabets, plus periodic extensions to 40; every string of length <= 2/3 over the 24-code-point alphabet plus words; every record over 4 keys x 3 values up to 3 entries; each subject bound once in a session and every law program evaluated against a harness-computed reference value; distinct = distinct subjects",
+        true,
+        None,
+    )
 }
